@@ -90,4 +90,11 @@ CHECKS.update({
             "note": "Trusted: serde_json / bincode as the formats in use. Byte-level encodings are not modelled. Sub-millisecond time constants are outside the property (millisecond resolution is the contract).",
             "technique": "TLA+ model of serde's variant numbering (spec/Ser.tla, MC_Ser) + TLC validation of recorded round trips with a variant-coverage obligation (spec/Trace_Ser.tla)"},
 })
+CHECKS.update({
+    "C17": {"text": "A variable is placed in each of 34 syntactic positions (operands, call arguments, receivers, macro range / body / predicate / transform, reduce step and seed, f-string segment, index, map key and value, match scrutinee / pattern / arm, "
+                    "untaken branches, short-circuited operands, has/coalesce arguments, type constructor) and in pairs of nested positions; TLC computes FreeVars(tree) with Params.tla and requires FreeVars within the reported list within the identifiers of the source, "
+                    "filter_from_bindings to remove exactly the bound names for three binding sets, and rebinding any unreported identifier not to change the outcome.",
+            "note": "Trusted: Program::params() / ProgramDetails::filter_from_bindings as the reporting API (the Python/WASM wrappers over them are not run).",
+            "technique": "TLA+ free-identifier computation (spec/Params.tla) + TLC trace validation of recorded compilations (spec/Trace_Params.tla)"},
+})
 NOT_YET = {}
